@@ -137,6 +137,7 @@ type Task struct {
 	sels []*selState // select statements being evaluated (innermost last)
 	ats  []atEntry   // atomic operations whose end has not been marked yet
 	spin int         // consecutive scheduling points of kinds that busy-waiting loops are made of
+	adopted bool     // started by an earlier run of the process
 }
 
 var cur *Task
